@@ -68,6 +68,12 @@ def tokens(draw):
         if y == 1:
             # cells that consist of blanks only are text as well
             return {'t': draw(st.sampled_from([' ', '  ', '\u00a0', '\u3000', ' \u00a0 '])), 'kind': 'blank'}
+        if y == 2:
+            # shared structure behind (or in front of) white space is not that structure any more; what it is instead is
+            # decided like for any other string: the kern importer's structure, or verbatim text of the own category
+            c = draw(st.one_of(G.barlines(), G.clefs(), G.timesigs(), G.meters(), st.just(G.null_cell()), st.just(G.nullinterp_cell())))
+            pad = draw(st.sampled_from([' ', '  ', '\x0c', '\u00a0', '\u2028', '\u3000']))
+            return {'t': (pad + c['t']) if draw(st.integers(0, 3)) else (c['t'] + pad), 'kind': 'arbitrary'}
         return {'t': draw(G.free_texts(sep_chars=draw(st.integers(0, 5)) == 0)), 'kind': 'free'}
     if x < 10:
         return {'t': draw(MF.malformed())['t'], 'kind': 'arbitrary'}
